@@ -167,6 +167,12 @@ type c07Op struct {
 	Tombstone bool `json:"tombstone,omitempty"`
 	// restart (C19, zz_verif_c19_test.go): informer delivery order / duplicates
 	Variant int `json:"variant,omitempty"`
+	// plugin-level cycles on several nodes (zz_verif_c07b_test.go)
+	Node       string   `json:"node,omitempty"`       // the node the operation concerns
+	Victim     string   `json:"victim,omitempty"`     // whatifRemove / whatifAdd
+	Whatif     bool     `json:"whatif,omitempty"`     // filter: on the node's what-if copy of the cycle state
+	Designated c07Alloc `json:"designated,omitempty"` // begin: device-allocated annotation the pod carries
+	Hint       bool     `json:"hint,omitempty"`       // begin: the deviceshare scheduling hint is set (the annotation is honoured)
 }
 
 // ---- environment + real cache -------------------------------------------------------------------------------
